@@ -57,7 +57,7 @@ class Prop(BaseProp):
     must_see = ["kind_pwc", "kind_pwl", "bp_only_in_op1", "bp_only_in_op2", "bp_shared", "tail:op1_tail_longer",
                 "tail:op2_tail_longer", "tail:end_together", "tail:op1_single_piece", "tail:op2_single_piece",
                 "identical_breakpoints", "history_len>=5", "int_valued_pwc", "int_valued_pwl", "copy_op", "mul_op", "self_add",
-                "commutativity_checked", "average_profile_checked"]
+                "commutativity_checked", "average_profile_checked", "shared_constructor_array"]
     must_contracts = ["inv:PieceWiseConstFunc", "inv:PieceWiseLinFunc"]
     arm_files = [("pyspike/cython/python_backend.py", ["add_piece_wise_const_python", "add_piece_wise_lin_python"])]
     assumptions = ["model: exact rational pointwise arithmetic on the union of breakpoints (vp/ref.py PWC/PWL)"]
@@ -132,6 +132,24 @@ class Prop(BaseProp):
         for q, (o, mo) in enumerate(zip(pool, mods)):
             if not compare(ctx, kind, o, mo, tag + ":pool-object-changed-behind-its-back", "pool object %d at the end of the history" % q):
                 return
+        # one float array handed in for several constructor arguments (users lift a constant profile into a linear one with
+        # PieceWiseLinFunc(p.x, p.y, p.y)): the object must own independent copies, so a scalar multiply scales it once and
+        # leaves the caller's array alone
+        ctx.count("shared_constructor_array")
+        f0 = case["funcs"][0]
+        xa = np.array(f0["x"], dtype=float)
+        ya = np.array(f0["y"] if kind == "pwc" else f0["y1"], dtype=float)
+        keep = ya.copy()
+        if kind == "pwl":
+            o = ctx.call(ps.PieceWiseLinFunc, xa, ya, ya, _name="PieceWiseLinFunc(x, y, y)", _readonly=False)
+            ctx.mcall(o, "mul_scalar", 0.5)
+            ctx.expect(np.array_equal(o.y1, 0.5 * keep) and np.array_equal(o.y2, 0.5 * keep), tag + ":shared-constructor-array",
+                       "PieceWiseLinFunc(x, y, y).mul_scalar(0.5): y1=%s y2=%s, expected %s" % (common.short(o.y1.tolist()), common.short(o.y2.tolist()), common.short((0.5 * keep).tolist())))
+        else:
+            o = ctx.call(ps.PieceWiseConstFunc, xa, ya, _name="PieceWiseConstFunc(x, y)", _readonly=False)
+            ctx.mcall(o, "mul_scalar", 0.5)
+            ctx.expect(np.array_equal(o.y, 0.5 * keep), tag + ":shared-constructor-array", "PieceWiseConstFunc(x, y).mul_scalar(0.5) gives %s" % common.short(o.y.tolist()))
+        ctx.expect(np.array_equal(ya, keep), tag + ":constructor-argument-modified", "the array passed to the constructor was changed by mul_scalar on the object")
         # commutativity / associativity on fresh objects
         fs = case["funcs"]
         ctx.count("commutativity_checked")
